@@ -650,3 +650,31 @@ def run_direct(app, case: Case, plan, per_rep: int = 3, wall_limit: float = 60.0
         except asyncio.TimeoutError:
             out.append({"timed_out": True})
     return out
+
+
+# --------------------------------------------------------------------------- manifests only
+
+async def _load_only(app, case: Case, xml_list: list, out: list):
+    from dashlive.mpeg.dash.validator import ConcurrentWorkerPool, DashValidator, ValidatorOptions
+    url = HOST + case.path()
+    with ThreadPoolExecutor(max_workers=1) as tpe:
+        for xml in xml_list:
+            adapter = Adapter(app.client(), urllib.parse.urlparse(url).path, None)
+            opts = ValidatorOptions(duration=case.duration, encrypted=case.encrypted(), pool=ConcurrentWorkerPool(tpe))
+            opts.log = logging.getLogger("c18.validator")
+            dv = DashValidator(url, adapter, mode=case.mode, options=opts)
+            crashed = None
+            try:
+                await dv.load(data=xml)
+            except Exception as e:
+                crashed = f"{type(e).__name__}: {e}"
+            out.append({"xml": xml, "crashed": crashed, "snap": None if crashed else snap_manifest(dv)})
+
+
+def load_only(app, case: Case, xml_list: list) -> list:
+    """parse manifests with the real validator classes (no request is made): what `Manifest`, `SegmentTemplate`
+    and `SegmentTimeline` make of each text"""
+    out: list = []
+    with appboot.Clock(case.now):
+        asyncio.run(_load_only(app, case, xml_list, out))
+    return out
